@@ -20,6 +20,7 @@
 package c01
 
 import (
+	"encoding/json"
 	"fmt"
 	"os"
 	"os/exec"
@@ -318,4 +319,47 @@ func allCases(n int) []Case {
 		}
 	})
 	return all
+}
+
+// TestReduce shrinks the program of a replay file (VERIF_REDUCE=<file>) while
+// the same signature keeps failing, and prints the result. A development aid
+// for triage, not part of the check.
+func TestReduce(t *testing.T) {
+	path := os.Getenv("VERIF_REDUCE")
+	if path == "" {
+		t.Skip("VERIF_REDUCE not set")
+	}
+	b, err := os.ReadFile(path)
+	if err != nil {
+		t.Fatal(err)
+	}
+	var rf struct {
+		Sig  string `json:"sig"`
+		Case Case   `json:"case"`
+	}
+	if err := json.Unmarshal(b, &rf); err != nil {
+		t.Fatal(err)
+	}
+	mode := rf.Sig[strings.LastIndex(rf.Sig, "[")+1 : len(rf.Sig)-1]
+	want := rf.Sig[:strings.LastIndex(rf.Sig, " [")]
+	p := rf.Case.Program
+	test := func(body string) bool {
+		q := p
+		q.Body = body
+		g, err := goResult(q)
+		if err != nil || g.BuildErr != "" {
+			return false
+		}
+		e := egorun.Run(q.EgoSource(), egorun.Config{Types: mode, Optimize: 0, EntryPoint: "main"})
+		sig, _ := compare(g, e)
+		return sig == want
+	}
+	if !test(p.Body) {
+		t.Fatalf("the replay does not fail with signature %q any more", want)
+	}
+	red := proggen.ReduceLines(p.Body, 400, test)
+	q := p
+	q.Body = red
+	fmt.Println("=== reduced program (" + mode + ", " + want + ") ===")
+	fmt.Println(q.EgoSource())
 }
